@@ -48,6 +48,9 @@ fn rand_line(rng: &mut Rng) -> Vec<u8> {
         8 => b"@".to_vec(),
         9 => b"@x".to_vec(),
         10 => b"@unknown arg".to_vec(),
+        11 => rng.pick::<&[u8]>(&[b"\xef\xbb\xbfbin/foo", b"\xef\xbb\xbf@name x", b"\xef\xbb\xbf", b"\xef\xbb\xbf@bogus",
+            b"\xef\xbb\xbf@ignore", b"\xef\xbb\xbf ", b"\xff\xfe@cwd /x", b"@caf\xe9 x", b"@\xff", b"@name\xf8 x", b"@cwd\xa0/x",
+            b"@caf\xc3\xa9 x", b"\x00@cwd /x", b"@cwd /x\x00"]).to_vec(),
         _ => {
             let mut l = rng.pick(&CMDS).as_bytes().to_vec();
             l.extend(rng.pick(&arg_variants()).clone());
@@ -78,6 +81,11 @@ fn gen_c14(tier: &str, rng: &mut Rng, emit: &mut dyn FnMut(Op)) {
         emit(Op::new("plist.parse", &[&[b' ', x, b'\n']]));
         emit(Op::new("plist.parse", &[&[b'a', b'\n', x, b'\n', b'b']]));
     }
+    // a byte order mark is three ordinary bytes: the first line is not special
+    for d in [&b"\xef\xbb\xbfbin/foo\n"[..], b"\xef\xbb\xbf@name x\nbin/a\n", b"\xef\xbb\xbf@bogus\n", b"\xef\xbb\xbf\nbin/a\n", b"\xef\xbb\xbf",
+        b"\xef\xbb\xbf\xef\xbb\xbf@cwd /x\n", b"bin/a\n\xef\xbb\xbf@name x\n", b"\xef\xbb\xbf \n@name x"] {
+        emit(Op::new("plist.parse", &[d]));
+    }
     for l in [&b"@cwd\t/x"[..], b" bin/foo", b"@ cwd", b"@cwd/x", b"@CWD /x", b"@cwd /x\r", b"@ignore x", b"@option", b"@option preserve x", b"@comment", b"@comment  two  words "] {
         emit(Op::new("plist.entry", &[l]));
         emit(Op::new("plist.parse", &[l]));
@@ -102,14 +110,19 @@ fn gen_c14(tier: &str, rng: &mut Rng, emit: &mut dyn FnMut(Op)) {
 
 fn gen_c15(tier: &str, rng: &mut Rng, emit: &mut dyn FnMut(Op)) {
     let thorough = tier == "thorough";
-    let kinds: [&[u8]; 26] = [
+    let kinds: [&[u8]; 34] = [
+        b"/etc/abs", b"/", b"bin/a/", b"@unexec rm -f %D/%F.bak", b"@exec ln %f %B", b"@unexec %B", b"@exec %D/%F", b"@unexec echo %f",
         b"bin/a", b"bin/b", b"lib/c", b"share/d", b"x", b"@ignore", b"@ignore", b"@ignore",
         b"@cwd /usr/pkg", b"@cwd /opt/", b"@cwd /", b"@cwd rel", b"@cwd /caf\xe9", b"@src /s", b"@cd /c",
         b"@exec echo hi", b"@unexec rm x", b"@mode 0644", b"@mode", b"@owner root", b"@group wheel",
         b"@pkgdir share/x", b"@dirrm share/y", b"@comment hello", b"@option preserve", b"@name foo-1.0",
     ];
     let rest: [&[u8]; 6] = [b"@pkgdep a>=1", b"@blddep b-1", b"@pkgcfl c-[0-9]*", b"@display MESSAGE", b"@name bar-2", b"@display OTHER"];
-    let fixed: [&[u8]; 8] = [
+    let fixed: [&[u8]; 12] = [
+        b"@ignore\n+INSTALL\n@unexec rm -f %D/%F.bak\n@exec touch %F\nbin/a\n@unexec rm %F\n",
+        b"@cwd /opt/pkg\n/etc/rc.d/foo\nbin/a\n",
+        b"/abs\n@cwd rel\n/abs2\n",
+        b"@ignore\nbin/a\n@mode 0644\n@owner o\n@group g\n@pkgdir d\n@dirrm e\n@cwd /c\n@exec x\n@unexec y\nbin/b\n",
         b"@ignore\n@ignore\nbin/a\nbin/b\n",
         b"bin/a\n@ignore\n",
         b"@ignore\n@cwd /x\nbin/a\nbin/b\n",
